@@ -1,7 +1,7 @@
 (* C12 — refuted parts of the full statement. *)
-From Coq Require Import ZArith List Bool.
+From Coq Require Import ZArith List Bool String.
 Import ListNotations.
-Require Import V.Restart.Model.
+Require Import V.Restart.Model V.Restart.Config.
 Open Scope Z_scope.
 
 Definition sf_cfg : cfg := {| max_restarts := Some (-1); hook_file := HFNone; hook_loadable := false;
@@ -48,3 +48,15 @@ Theorem C12_total_bound_success_listed_refuted :
   count_cont succ_cfg init_st succ_hist + count_resub succ_cfg init_st succ_hist = 11.
 Proof. vm_compute. repeat split; auto. Qed.
 Print Assumptions C12_total_bound_success_listed_refuted.
+
+(* C12_never_after_kill needs its hypothesis "Killed / Cancelled are not listed": the restart chain itself
+   (Controller._restartComponent, ComponentState.restart, Engine.restart) only tests membership, so for EVERY
+   exit reason - Killed and Cancelled included - a component listing it whose hook answers "restart possible"
+   is restarted.  Not a defect of the unchanged tree: the FlowIR schema rejects such a list
+   (C12_config_schema / C12_accepted_config_never_after_kill; the correspondence compares the real
+   validation with schema_accepts on every run) - but it is the ONLY safeguard. *)
+Theorem C12_never_after_kill_unvalidated_refuted :
+  (forall r, snd (ctl_restart (listing r) init_st r HPossible true true) = Initiated) /\
+  schema_accepts [] ["Cancelled"%string] = false /\ schema_accepts [] ["Killed"%string] = false.
+Proof. split; [exact unvalidated_restarts|split; reflexivity]. Qed.
+Print Assumptions C12_never_after_kill_unvalidated_refuted.
